@@ -29,10 +29,9 @@ def main():
         if not os.path.exists(patch):
             continue
         meta = json.load(open(os.path.join(d, "meta.json"))) if os.path.exists(os.path.join(d, "meta.json")) else {}
-        sh(["git", "checkout", "--", "."], cwd=REPO)
+        sh(["git", "reset", "--hard", "-q"], cwd=REPO)
+        sh(["git", "clean", "-fdq"], cwd=REPO)
         rc, o = sh(["git", "apply", patch], cwd=REPO)
-        if rc != 0:
-            rc, o = sh(["git", "apply", "-3", patch], cwd=REPO)
         if rc != 0:
             results[name] = {"status": "patch does not apply", "detail": o[-300:]}
             json.dump(results, open(out, "w"), indent=1)
@@ -50,7 +49,7 @@ def main():
             lines = [l for l in o.splitlines() if l.startswith("VIOLATION") or l.startswith("  kind=") or l.startswith("INCONCLUSIVE")]
             entry["checks"][p] = {"exit": rc, "secs": round(time.time() - t0), "lines": [l[:400] for l in lines[:6]], "tail": o.splitlines()[-1:] }
             print(name, p, "exit", rc, round(time.time() - t0), "s", flush=True)
-        sh(["git", "checkout", "--", "."], cwd=REPO)
+        sh(["git", "reset", "--hard", "-q"], cwd=REPO)
         sh(["git", "clean", "-fdq"], cwd=REPO)
         results[name] = entry
         json.dump(results, open(out, "w"), indent=1)
